@@ -331,6 +331,10 @@ class CallMixin(ExprMixin):
                 rt = recv.ty
             if isinstance(rt, Ref) and rt.cls == "Future":
                 return self.future_method(st, recv, th.name, args, kw, node)
+            if isinstance(rt, Ref) and rt.cls in C.CLASSES and getattr(C.CLASSES[rt.cls], "dict_field", None) \
+                    and th.name in ("keys", "values", "items", "get") and C.BY_METHOD.get((rt.cls, th.name)) is None:
+                # the read-only dict methods of an object modelled as a shared dict go to the dict it stands for
+                return self.container_method(st, self.deref_dictlike(st, recv), th.name, args, kw, node)
             if isinstance(rt, Ref):
                 con = C.BY_METHOD.get((rt.cls, th.name))
                 cm0 = self.find_call_model(ftext) if con is not None else None
@@ -606,6 +610,9 @@ class CallMixin(ExprMixin):
                 return [(st, V(a.ty, a.t))]
             if n in ("set", "frozenset") and a.ty == PYOBJ and a.t.kind in ("emptylist", "emptyset"):
                 return [(st, V(PYOBJ, PyThing("emptyset")))]
+            if n in ("set", "frozenset") and a.ty == PYOBJ and a.t.kind == "dictkeys":
+                d = a.t.dict
+                return [(st, V(Set(d.ty.k), T.dict_dom(d)))]          # set(d.keys()): the key set
             if n == "list" and isinstance(a.ty, Set):
                 return [(st, V(PYOBJ, PyThing("setiter", set=a)))]
             if n == "list" and a.ty == PYOBJ and a.t.kind in ("dictkeys", "dictvalues", "dictitems"):
